@@ -8,8 +8,8 @@ void vf_tok_init(f8_thread_cancellation_token *tok) { new (tok) f8_thread_cancel
 int vf_pw_execute(FIXWriter *w, f8_thread_cancellation_token *tok) { return w->FIXWriter::execute(*tok); }
 bool vf_pw_write(FIXWriter *w, Message *m) { return w->FIXWriter::write(m, true); }
 unsigned long vf_pw_write_batch(FIXWriter *w, std::vector<Message *> *v) { return w->FIXWriter::write_batch(*v, true); }
-// the sentinel FIXWriter::stop() pushes (same statement; stop() itself also needs the thread plumbing)
-void vf_pw_push_sentinel(FIXWriter *w) { w->_msg_queue.try_push(0); }
+// the real FIXWriter::stop() (pushes the stop sentinel; the thread plumbing behind request_stop is a cut point)
+void vf_pw_push_sentinel(FIXWriter *w) { w->_started = true; w->FIXWriter::stop(); }
 void vf_vec_init2(std::vector<Message *> *v, Message **store, Message *a, Message *b)
 { store[0] = a; store[1] = b; v->_M_impl._M_start = store; v->_M_impl._M_finish = store + 2; v->_M_impl._M_end_of_storage = store + 2; }
 bool vf_msg_eob(const Message *m) { return m->get_end_of_batch(); }
